@@ -172,7 +172,10 @@ fn trap_prog(rng: &mut Rng, which: u16, text: &[u16]) -> Asm {
     a.trap(0x25);
     a.label("CH"); a.w(text.first().copied().unwrap_or(0x41));
     a.label("RES"); a.w(0);
-    a.label("STR"); for w in text { a.w(*w); } a.w(0);
+    a.label("STR"); for w in text { a.w(*w); }
+    // PUTSP stops at the first zero *byte*: after a word with a zero high byte anything may follow in memory
+    if which == 0x24 && text.last().map(|w| w >> 8 == 0).unwrap_or(false) && rng.bool() { a.w(0x5958); a.w(0x4100 | (1 + rng.below(200) as u16)); }
+    a.w(0);
     a
 }
 
@@ -340,19 +343,20 @@ pub fn c30(out: &mut Out, ex: &mut Exec, seed: u64, thorough: bool) {
                 7 => format!("sim rec 1 1 {:04x} {:04x}", rng.u16(), 0xFE10 + rng.below(8) as u16),
                 8 => format!("sim mmap {:04x} {}", 0xFE20 + rng.below(8) as u16, rng.pick(&["pc", "psr", "mcr", "ssp"])),
                 9 => format!("sim hostwrite {:04x} {:04x} ffff 1 0 1 0", *rng.pick(&[0xFFFCu16, 0xFE20, 0xFE21, 0xFE10, 0xFE06, 0x3000, 0x0000]), rng.u16()),
-                10 => format!("sim kbpush {:02x}", rng.below(256)), _ => format!("sim rmdev {}", 3 + rng.below(3)),
+                10 => if rng.bool() { format!("sim kbpush {:02x}", rng.below(256)) } else { format!("sim munmap {:04x}", *rng.pick(&[0xFFFCu16, 0xFFFE, 0xFE20, 0xFE21, 0xFFF0])) },
+                _ => format!("sim rmdev {}", 3 + rng.below(3)),
             });
         }
         v.push("sim reset".into()); v.push("sim memhash".into()); v.push("sim iregs".into());
         // configuration survives: breakpoints still stop a run, devices still dispatch
-        v.push("sim hostread fe10 1 0 1 0".into()); v.push("sim run 5".into());
+        v.push("sim hostread fe10 1 0 1 0".into()); v.push("sim hostwrite fffc 0302 ffff 1 0 1 0".into()); v.push("sim hostread fffe 1 0 1 0".into()); v.push("sim run 5".into());
         let r = run_lines(out, ex, &v);
         out.evaluations += v.len() as i64;
         // oracle: equals a new simulator with the same (current) flags
         let fresh = vec![format!("case {id}n"), format!("sim new {} {} {} {} {:04x}", st as u8, real as u8, dbgflag as u8, ign as u8, fill), "sim mmap fff0 ssp".into(), "sim state".into(), "sim memhash".into()];
         let rf = run_lines(out, ex, &fresh);
         let pick = |d: &str| -> String { ["pc", "psr", "r", "ssp", "fn", "fr", "ir", "hh", "hb", "pf"].iter().map(|k| format!("{}={}", k, field(d, k).unwrap_or("?"))).collect::<Vec<_>>().join(" ") };
-        let dreset = &r[r.len() - 5]; let hreset = &r[r.len() - 4];
+        let dreset = &r[r.len() - 7]; let hreset = &r[r.len() - 6];
         let has_ssp = !dreset.contains("ssp=-");
         // memory mirrors of mapped I/O cells may legitimately differ (host reads); compare hash only when no extra mapping/recorder touched the I/O page
         if pick(dreset) != pick(&rf[3]) && has_ssp { out.fail(out.lines, format!("reset state differs from a new simulator: `{}` vs `{}`", pick(dreset), pick(&rf[3])), v.join("\n")); }
